@@ -81,8 +81,16 @@ func plan(tier string, seed int64) []run.Batch {
 	if tier == "thorough" {
 		reps, stressRounds, ivVariants, linBatches, pathBatches = 5, 6, 8, 12, 2
 	}
+	directed := 1
+	if tier == "thorough" {
+		directed = 4
+	}
 	// the long batches first
 	add("cover", 0, "racecover", 400, nil)
+	add("selftest", 0, "", 60, nil) // the porcupine model's self-test: no server, cannot be lost with a dying lin batch
+	for i := 0; i < directed; i++ {
+		add("directed", 0, "race", 240, nil)
+	}
 	for s := 0; s < stressRounds; s++ {
 		for i := 0; i < 8; i++ {
 			add("stress", 0, "race", 240, p("slice", i, "of", 8))
@@ -131,6 +139,10 @@ func child(b run.Batch, r *ev.Result) {
 		childPaths(b, r)
 	case "cover":
 		childCover(b, r)
+	case "directed":
+		childDirected(b, r)
+	case "selftest":
+		childSelfTest(b, r)
 	default:
 		r.Inconc("unknown batch kind " + b.Kind)
 	}
@@ -287,7 +299,16 @@ func classifyDeath(c *ev.Check, o *run.Outcome) bool {
 		}
 	}
 	replay := map[string]interface{}{"batch": o.Batch, "oplog_tail": o.OplogTail, "blocked": blocked, "other_server_goroutines": busy}
-	if len(blocked) > 0 && len(busy) == 0 {
+	// (c) a handler panicked (net/http swallowed it) and goroutines have been waiting for a mutex for a minute
+	// or more: the panicking handler took the lock with it; whatever else is still moving cannot release it.
+	longWait := false
+	for _, bl := range blocked {
+		if strings.Contains(bl, "minutes]") {
+			longWait = true
+		}
+	}
+	handlerPanic := strings.Contains(dump, "http: panic serving")
+	if len(blocked) > 0 && (len(busy) == 0 || (handlerPanic && longWait)) {
 		sort.Strings(blocked)
 		c.Violation("deadlock-or-leaked-lock", fmt.Sprintf("batch %d (%s) hung; %d goroutine(s) of package server are parked in sync.(*Mutex).Lock and no goroutine of package server is running or holding work that could release it: %s",
 			o.Batch.Index, o.Batch.Kind, len(blocked), strings.Join(blocked, "; ")), replay)
@@ -315,11 +336,15 @@ func post(c *ev.Check, outs []*run.Outcome) {
 	nBatch := map[string]int{}
 	reps := 0
 	for _, o := range outs {
+		if o.Result == nil {
+			continue // a batch that died is judged by its death; the volume gates count the batches that reported
+		}
 		nBatch[o.Batch.Kind]++
-		if o.Batch.Kind == "delay" && o.Batch.P("slice") == "0" {
+		if o.Batch.Kind == "delay" {
 			reps++
 		}
 	}
+	reps /= 16
 	replaying := os.Getenv("VERIF_REPLAY") != ""
 	if !replaying {
 		nd := len(delayCells())
@@ -336,8 +361,11 @@ func post(c *ev.Check, outs []*run.Outcome) {
 		c.Require("interleave.cells", int64(len(interleaveCells())*nBatch["interleave"]/4))
 		c.Require("interleave.state_equal_model", 1)
 		c.Require("lin.linearizable", 1)
-		c.Require("lin.selftest_accepted_legal", int64(nBatch["lin"]))
-		c.Require("lin.selftest_rejected_illegal", int64(2*nBatch["lin"]))
+		c.Require("lin.selftest_accepted_legal", 1)
+		c.Require("lin.selftest_rejected_illegal", 2)
+		c.Require("directed.rotations_under_polls", 1)
+		c.Require("directed.polls_overlapping_a_rotation", 1)
+		c.Require("directed.victims_churned", 1)
 		c.Require("paths.tours_completed", int64(nBatch["paths"]))
 		c.Require("paths.success_answers", 10)
 		c.Require("stress.final_checks", int64(nBatch["stress"]))
